@@ -156,9 +156,11 @@ pub proof fn lemma_plan_unfold(data: Seq<Seq<u8>>, off: int, total: int, i: int)
 //@ end
 
 // ======================================================================================================================
-// (i) parallel writer: the body of the `.map(|(idx, term)| { .. })` closure — one planning step
+// (i) parallel writer: the body of the `.map(|(idx, term)| { .. })` closure — one planning step.
+// The block anchor pins the whole iterator chain `terms.into_iter().enumerate().map(..)` (std: plan order, idx = plan index): an edit
+// of the chain (`.rev()`, `.enumerate()` moved) loses the anchor -> undecided, never silently green.
 //@ extract cas_client/src/remote_client.rs in `impl RemoteClient` region reconstruct_file_to_writer_parallel
-//@ block `.map(|(idx, term)| {`
+//@ block `let term_tasks = terms.into_iter().enumerate().map(|(idx, term)| {`
 //@ sig `fn par_plan_term(idx: usize, term: CASReconstructionTerm, offset_into_first_range: u64, mut bytes_written: u64, mut remaining: u64, task_info: &TermWriteTask) -> (r: (TermWriteCall, u64, u64))`
 //@ epilogue `.vx_with(bytes_written, remaining)`
 //@ contract
@@ -302,7 +304,7 @@ impl FutStream {
     { unimplemented!() }
     #[verifier::external_body]
     fn buffer_unordered(self, n: usize) -> (r: OutStream)
-        ensures exists|sigma: Seq<int>| is_perm(sigma, self.items().len() as int) && r.yields() == permuted(self.items(), sigma),
+        ensures exists|sigma: Seq<int>| is_perm(sigma, self.items().len() as int) && r.yields() == #[trigger] permuted(self.items(), sigma),
     { unimplemented!() }
 }
 spec fn permuted(items: Seq<Seq<u8>>, sigma: Seq<int>) -> Seq<Seq<u8>> { Seq::new(sigma.len(), |k: int| items[sigma[k]]) }
